@@ -263,6 +263,47 @@ func checkPoss(scen string, in PossIn) []*mc.Violation {
 	if len(out) > 0 {
 		return out
 	}
+	// a field a caller built by hand: a substvar alternative is skipped because it IS a substvar, whatever else the struct
+	// carries (an empty or a matching architecture list, a qualifier, a version) - the selection must not change
+	hand, herr := dependency.Parse(in.text())
+	if herr == nil {
+		touched := false
+		for ri := range hand.Relations {
+			for pi := range hand.Relations[ri].Possibilities {
+				p := &hand.Relations[ri].Possibilities[pi]
+				if p.Substvar {
+					touched = true
+					switch (ri + pi) % 3 {
+					case 0:
+						p.Architectures = &dependency.ArchSet{Architectures: []dependency.Arch{}}
+					case 1:
+						p.Architectures = &dependency.ArchSet{Architectures: []dependency.Arch{*arch}}
+					default:
+						p.Architectures = &dependency.ArchSet{Not: true, Architectures: []dependency.Arch{{ABI: "x", OS: "y", CPU: "z"}}}
+					}
+					p.Version = &dependency.VersionRelation{Operator: ">=", Number: "1"}
+				}
+			}
+		}
+		if touched {
+			if p, msg := mc.Guard(func() {
+				if ps := hand.GetPossibilities(*arch); names(ps) != strings.Join(wantSel, " ") {
+					out = append(out, mc.V(scen, "first-admitted-alternative", in, strings.Join(wantSel, " "), fmt.Sprintf("with substvar alternatives carrying architecture lists (hand-built field): %s", names(ps))))
+				}
+				if ps := hand.GetSubstvars(); names(ps) != strings.Join(wantSub, " ") {
+					out = append(out, mc.V(scen, "substvars", in, strings.Join(wantSub, " "), fmt.Sprintf("hand-built field: %s", names(ps))))
+				}
+				if ps := hand.GetAllPossibilities(); names(ps) != strings.Join(wantAll, " ") {
+					out = append(out, mc.V(scen, "all-non-substvars", in, strings.Join(wantAll, " "), fmt.Sprintf("hand-built field: %s", names(ps))))
+				}
+			}); p {
+				return append(out, mc.V(scen, "selection-returns", in, "no panic", msg))
+			}
+			if len(out) > 0 {
+				return out
+			}
+		}
+	}
 	// asking is not changing: the same parsed field is then asked for the other architectures and for this one again;
 	// the answer for this architecture, and the field itself, must be what they were
 	before := gen.CanonDep(d)
@@ -310,7 +351,16 @@ var rv = func(s string) (gen.RefVersion, bool) {
 
 func checkSat(scen string, in SatIn, nValid bool) *mc.Violation {
 	var v version.Version
-	if in.V != zeroV {
+	switch {
+	case in.V == zeroV:
+	case strings.HasPrefix(in.V, structV):
+		// a Version built by hand that no version string denotes: upstream|revision after the prefix
+		parts := strings.SplitN(strings.TrimPrefix(in.V, structV), "|", 2)
+		v = version.Version{Version: parts[0]}
+		if len(parts) > 1 {
+			v.Revision = parts[1]
+		}
+	default:
 		var err error
 		if v, err = version.Parse(in.V); err != nil {
 			return mc.V(scen, "harness-version-parses", in, "V parses", err.Error())
@@ -353,6 +403,9 @@ var validVersions = append(gen.AuditIntStrings(0, 1<<62, 6), "0", "1", "1.0", "1
 
 // zeroV stands for the zero version.Version{} as V (a value every caller can build; Compare orders it below every parsed one)
 const zeroV = "<zero Version>"
+
+// structV prefixes a V given as struct members (upstream|revision) rather than as a version string
+const structV = "<struct>"
 
 // (the second line: numbers the version parser rejects only in its late checks, after it has filled in some parts)
 var invalidNumbers = append([]string{"", "a", "1 2", "1:", ":1", "-", "1_0", "a:1", "${binary:Version}", "${source:Version}~", "1.0${x}", "$1.0", "1.0 beta", "=1",
@@ -581,10 +634,26 @@ func Run(r *mc.Run) {
 	// 4: SatisfiedBy
 	ops := []string{"<<", "<=", "=", ">=", ">>", "", "<", ">", "==", "!=", "=>", "=<"}
 	asV := append(append([]string{}, validVersions...), zeroV)
+	// hand-built values no version string denotes, each also asked with N spelled exactly like its own rendering (which
+	// is then an unparsable number: never satisfied)
+	handV := []string{structV + "UNRELEASED", structV + "1.0_rc1", structV + "1.0|1_2", structV + "a", structV + "~1", structV + "1 2"}
+	for _, hv := range handV {
+		parts := strings.SplitN(strings.TrimPrefix(hv, structV), "|", 2)
+		n := parts[0]
+		if len(parts) > 1 {
+			n += "-" + parts[1]
+		}
+		invalidNumbers = append(invalidNumbers, n)
+	}
+	invalidNumbers = gen.Dedup(invalidNumbers)
+	asV = append(asV, handV...)
 	r.Scenario("version-constraint", map[string]interface{}{"operators": ops, "valid_versions": len(validVersions), "V_also": "the zero version.Version{}", "unparsable_numbers": invalidNumbers}, len(asV), func(i int, st *mc.Stats) bool {
 		v := asV[i]
 		for _, op := range ops {
 			for _, n := range validVersions {
+				if strings.HasPrefix(v, structV) {
+					break // hand-built values are only asked about unparsable numbers (the order of such values is not the statement's business)
+				}
 				st.Evals++
 				st.Traces++
 				st.Nontrivial++
